@@ -2,6 +2,8 @@
    * call sequence of client_thread / run_standalone from clang's JSON AST (source order = pre-order):
        verify_before_execute  := nvm_verify occurs, and before vm_execute, in client_thread (vmd_server.c)
        standalone_verifies    := the same in run_standalone (nanovm/main.c)
+       vmd_exit_from_main / standalone_exit_from_main := vm_get_result occurs after vm_execute in client_thread / run_standalone
+       vmd_client_has_timeout := some call on the client side of a session bounds a blocking read/write (see client_timeouts)
        send_results_ignored   := no vmd_msg_send* call in client_thread has its value used
        vmd_error_texts        := string literals handed to vmd_msg_send_error in client_thread
    * signal disposition of the freshly built nano_vmd, read from /proc/<pid>/status (SigIgn) of a private instance
@@ -118,6 +120,56 @@ def _live_sigign(b):
         shutil.rmtree(d, ignore_errors=True)
 
 
+TIMED_WAITS = {'alarm', 'ualarm', 'setitimer', 'timer_settime', 'poll', 'ppoll', 'select', 'pselect', 'epoll_wait', 'epoll_pwait',
+               'sem_timedwait', 'pthread_cond_timedwait'}
+
+
+def _tu_functions(b, rel):
+    cmd = ['clang'] + [f for f in b.cflags if not f.startswith('-fsanitize') and f != '-fno-sanitize-recover=all'] + \
+          ['-I' + os.path.join(REPO, 'src/nanovm'), '-w', '-fsyntax-only', '-Xclang', '-ast-dump=json', os.path.join(REPO, rel)]
+    r = subprocess.run(cmd, capture_output=True, text=True, timeout=300)
+    if r.returncode != 0:
+        raise RuntimeError('clang AST dump failed: ' + r.stderr[-2000:])
+    out = {}
+    for n in json.loads(r.stdout).get('inner', []):
+        if n.get('kind') == 'FunctionDecl' and any(c.get('kind') == 'CompoundStmt' for c in n.get('inner', [])):
+            out[n['name']] = n
+    return out
+
+
+def _ival(n):
+    """constant value of an argument (through casts/parens), None if not a literal expression"""
+    k = n.get('kind')
+    if k == 'IntegerLiteral':
+        return int(n['value'])
+    if k in ('ImplicitCastExpr', 'ParenExpr', 'CStyleCastExpr', 'ConstantExpr') and n.get('inner'):
+        return _ival(n['inner'][0])
+    return None
+
+
+def client_timeouts(b, K):
+    """Every call in the client side of a session (vmd_client.c; the shared read/write helpers of vmd_protocol.c; run_daemon in
+    nanovm/main.c) that can bound the time a blocking read or write on the session socket waits:
+    setsockopt(.., SO_RCVTIMEO | SO_SNDTIMEO, ..) (or a non-constant option name), alarm/setitimer, poll/select/epoll_wait.
+    [(unit, function, what)]"""
+    sites = []
+    for rel, only in (('src/nanovm/vmd_client.c', None), ('src/nanovm/vmd_protocol.c', None), ('src/nanovm/main.c', ('run_daemon',))):
+        for fname, fn in sorted(_tu_functions(b, rel).items()):
+            if only and fname not in only:
+                continue
+            for c in _calls(fn):
+                cal, args = c[0], c[2]
+                if cal == 'setsockopt' and len(args) >= 3:
+                    opt = _ival(args[2])
+                    if opt is None:
+                        sites.append((rel, fname, 'setsockopt(non-constant option)'))
+                    elif opt in (K['SO_RCVTIMEO'], K['SO_SNDTIMEO']):
+                        sites.append((rel, fname, 'setsockopt(%s)' % ('SO_RCVTIMEO' if opt == K['SO_RCVTIMEO'] else 'SO_SNDTIMEO')))
+                elif cal in TIMED_WAITS:
+                    sites.append((rel, fname, cal))
+    return sites
+
+
 def facts(b):
     ct = _calls(_ast(b, 'src/nanovm/vmd_server.c', 'client_thread'))
     rs = _calls(_ast(b, 'src/nanovm/main.c', 'run_standalone'))
@@ -127,10 +179,20 @@ def facts(b):
     f['run_standalone_calls'] = [c[0] or '?' for c in rs]
     f['verify_before_execute'] = _before(ct, 'nvm_verify', 'vm_execute')
     f['standalone_verifies'] = _before(rs, 'nvm_verify', 'vm_execute')
+    # main's int result becomes the exit status: vm_get_result is consulted after vm_execute
+    f['exit_from_main'] = _before(ct, 'vm_execute', 'vm_get_result')
+    f['standalone_exit_from_main'] = _before(rs, 'vm_execute', 'vm_get_result')
     sends = [c for c in ct if (c[0] or '').startswith('vmd_msg_send')]
     f['send_results_ignored'] = bool(sends) and all(c[1] for c in sends)
     f['error_texts'] = [t for t in (_strlit(c[2][1]) if len(c[2]) > 1 else None for c in ct if c[0] == 'vmd_msg_send_error') if t is not None]
     f['setup_signals_sigaction_signals'] = [v for v in (_intval(c[2][0]) if c[2] else None for c in ss if c[0] == 'sigaction') if v is not None]
+    from genlib import run_dump
+    K = {}
+    for l in run_dump(b, 'dump_vmdconsts.c', ['src/nanovm/vmd_protocol.c']).splitlines():
+        w = l.split()
+        if w[0] in ('SO_RCVTIMEO', 'SO_SNDTIMEO'):
+            K[w[0]] = int(w[1])
+    f['client_timeouts'] = client_timeouts(b, K)
     mask = _live_sigign(b)
     f['sigign_mask'] = mask
     f['ignores_sigpipe'] = bool(mask & (1 << (signal.SIGPIPE - 1)))
@@ -154,8 +216,16 @@ def generate(b):
          '(* nvm_verify is called, and before vm_execute, in client_thread / in run_standalone *)',
          'Definition verify_before_execute : bool := %s.' % _bl(f['verify_before_execute']),
          'Definition standalone_verifies : bool := %s.' % _bl(f['standalone_verifies']),
+         '(* vm_get_result is consulted after vm_execute (main\'s int result becomes the exit status) in client_thread / in run_standalone *)',
+         'Definition vmd_exit_from_main : bool := %s.' % _bl(f['exit_from_main']),
+         'Definition standalone_exit_from_main : bool := %s.' % _bl(f['standalone_exit_from_main']),
          '(* every vmd_msg_send* in client_thread is an expression statement: a failed write does not end the session early *)',
          'Definition send_results_ignored : bool := %s.' % _bl(f['send_results_ignored']),
+         '(* calls on the client side of a session (vmd_client.c, vmd_protocol.c, run_daemon) that put a time limit on a blocking read/write of',
+         '   the session socket: setsockopt(SO_RCVTIMEO|SO_SNDTIMEO), alarm/setitimer, poll/select/epoll_wait; (unit, function, call) *)',
+         'Definition vmd_client_timeout_calls : list (string * (string * string)) := [%s].' % '; '.join(
+             '("%s"%%string, ("%s"%%string, "%s"%%string))' % t for t in f['client_timeouts']),
+         'Definition vmd_client_has_timeout : bool := %s.' % _bl(bool(f['client_timeouts'])),
          '(* SigIgn mask of the listening daemon; bit 12 = SIGPIPE *)',
          'Definition vmd_sigign_mask : N := %d.' % f['sigign_mask'],
          'Definition vmd_ignores_sigpipe : bool := %s.' % _bl(f['ignores_sigpipe']),
